@@ -189,6 +189,10 @@ def gen_dump(rng, table, strings):
     bufs = b""
     for nm in names:
         bufs += gen_trace(rng, strings, name=nm.encode(), nentries=rng.choice([0, 1, 2, 4]), hostile=rng.random() < 0.4)
+    if names and rng.random() < 0.15:
+        # the same buffer name a second time (e.g. a stale copy): only its FIRST occurrence is a recognised header,
+        # the later copy is data of whatever region it falls into
+        bufs += gen_trace(rng, strings, name=rng.choice(names).encode(), nentries=rng.choice([0, 1, 2]), hostile=False)
     if rng.random() < 0.1 and names:
         ilog = b""                                                               # header at offset 0
     return ilog + bufs
